@@ -338,14 +338,18 @@ func run(sc scenario, steps []step, check bool) string {
 	defer w.d.Close()
 	faulted, died := false, false
 	receiptFault, bigJump := false, false
+	advanced := uint64(sc.Level) + 1 // the first step of the closing schedule
 	for _, s := range steps {
 		if s.Op == "fault" && s.Method == "eth_getTransactionReceipt" {
 			receiptFault = true
 		}
-		if s.Op == "head+" && s.N >= 60 {
-			bigJump = true
+		if s.Op == "head+" {
+			advanced += s.N
 		}
 	}
+	// the watcher looks a message up once per head it sees: when the heads of the history plus the first closing
+	// step cross the whole window, ONE failed lookup can be the only one inside it (e.g. +59, lookup fails, +1)
+	bigJump = advanced >= 60
 	if receiptFault && bigJump {
 		// the head crosses the whole abandonment window in one step: the single lookup inside the window failed,
 		// so the node HAS failed to confirm the message for the whole window - abandonment is allowed
